@@ -461,6 +461,59 @@ def check_threads(res, rendezvous, tier):
             ex, exhaustive, bad = S.explore_threads(make, 2, P, 300 if tier == "quick" else 6000, on_run)
             if bad:
                 res.violation(bad[0], bad[1] + " ; schedule %r" % (sorted(bad[2].items(), key=repr),), ("threads", label))
+    # membership changes while another thread looks keys up (reconfigure_nodes / fail-over in one thread, traffic in another).
+    # What the concurrent look-up itself returns is not judged (the node list is changing under it); judged is the state
+    # afterwards: once both threads are done, every key is placed by the rule on the final node set - nothing computed for
+    # the old set may survive the change
+    for label, nodes, change in (("remove", ["a:1", "b:1", "c:1", "d:1"], ("remove", "c:1")), ("add", ["a:1", "b:1"], ("add", "c:1")),
+                                 ("remove-then-add", ["a:1", "b:1", "c:1"], ("replace", "b:1", "e:1"))):
+        keys = ["k%d" % i for i in range(6)]
+        if change[0] == "remove":
+            final = [x for x in nodes if x != change[1]]
+        elif change[0] == "add":
+            final = nodes + [change[1]]
+        else:
+            final = [x for x in nodes if x != change[1]] + [change[2]]
+        moved = [k for k in keys if refs.rendezvous_ref(nodes, k) != refs.rendezvous_ref(final, k)]
+        probe = (moved + keys)[:2]          # keys whose winner changes with the membership change come first
+
+        def make2(sch, nodes=nodes, change=change, final=final, probe=probe, label=label):
+            h = rendezvous.RendezvousHash()
+            for nd in nodes:
+                h.add_node(nd)
+            for k in probe:
+                h.get_node(k)
+
+            def changer():
+                if change[0] == "remove":
+                    h.remove_node(change[1])
+                elif change[0] == "add":
+                    h.add_node(change[1])
+                else:
+                    h.remove_node(change[1])
+                    h.add_node(change[2])
+
+            def reader():
+                for k in probe:
+                    try:
+                        h.get_node(k)
+                    except Exception:
+                        pass            # (the list is changing under the loop; not judged)
+
+            def judge(ok, sch_):
+                for k in probe + ["other-key"]:
+                    res.count("placements_after_concurrent_membership_change")
+                    got, want = h.get_node(k), refs.rendezvous_ref(final, k)
+                    if got != want:
+                        return ("two-threads:placement-survives-membership-change",
+                                "after %s of %r finished while another thread was looking keys up, get_node(%r) -> %r; the rule on "
+                                "the final node set %r gives %r" % (label, change[1:], k, got, final, want))
+                return None
+            return [changer, reader], judge
+        ex, exhaustive, bad = S.explore_threads(make2, 2, P, 400 if tier == "quick" else 6000, on_run=lambda sch: res.count("two_thread_schedules"))
+        if bad:
+            res.violation(bad[0], bad[1] + " ; schedule %r" % (sorted(bad[2].items(), key=repr),), ("threads", label))
+        res.case(("threads-membership", label))
 
 
 def shard(tier, seed, idx, n):
